@@ -5,18 +5,21 @@ import parso
 from parso import cache as pcache
 
 LEVEL = 'translation_validation'
-VFILES = ['Lines.v', 'Tok.v', 'TokShift.v', 'Engine.v', 'Model.v', 'Properties/C04.v']
+VFILES = ['Lines.v', 'Tok.v', 'TokShift.v', 'TokResume.v', 'Engine.v', 'Model.v', 'Properties/C04.v']
 TECHNIQUE = ('Coq simulation proof that the tokenizer model commutes with a shift of the start line (the fact behind moving copied nodes by a line offset) '
              '+ translation validation of edit histories: the tree returned by the incremental parser is compared, step by step, with the fresh parse of the '
              'Gallina pipeline model (Lines -> Tokenizer -> Engine, extracted) and with the implementation\'s own fresh parse')
 EXPLANATION = ('Proved for all inputs on the tokenizer model (Properties/C04.v, TokShift.tok_shift): tokenizing the same lines with the start line moved by k returns the same '
                'tokens with k added to every line number, and the same error otherwise - the fact that lets DiffParser move copied nodes by a line offset and '
-               're-tokenize a region with start_pos=(line_offset+1, 0); tied to the code by the tok stream and by the shift-invariance stream of this check '
-               '(the implementation tokenizer run at two start lines). DiffParser/_NodesTree/difflib are not modelled in Gallina (DESIGN.md section 9). The reference the implementation is validated against is '
+               're-tokenize a region with start_pos=(line_offset+1, 0); and (TokResume.tok_resume_points) at every line boundary the model lists as clean (no open bracket, '
+               'string, f-string or pending prefix, at a logical line start) the tokens of the whole input are the tokens of the lines before it (minus closing DEDENTs and '
+               'ENDMARKER) followed by the tokens of the remaining lines tokenized on their own from that line with the indentation stack reached there and '
+               'is_first_token=False - the fact that lets DiffParser re-tokenize only a tail. Both are tied to the code by the tok stream and by the shift / resume streams of this '
+               'check (the implementation tokenizer run at two start lines, and restarted at every clean boundary the extracted model reports). DiffParser/_NodesTree/difflib are not modelled in Gallina (DESIGN.md section 9). The reference the implementation is validated against is '
                'the model pipeline parse_text, whose agreement with a fresh implementation parse is itself a correspondence stream of this check; every '
                'history step compares type/value/prefix/position of every node, parent links, get_code and the used-names index.')
 LEVEL_TEXT = EXPLANATION
-ASSUMPTIONS = ['of the locality facts that justify node copying only tok_shift is proved; tok_resume (restarting at a clean state) and statement locality of the engine are not, and the copy logic is decided by validation of histories']
+ASSUMPTIONS = ['of the locality facts that justify node copying the tokenizer ones are proved (tok_shift, tok_resume_points); that DiffParser only restarts at clean boundaries, statement locality of the engine and the _NodesTree bookkeeping are not, and the copy logic is decided by validation of histories']
 
 FRAGS = [' ', '\t', '\n', '\r', '\f', '\x0b', '\x1c', '\x1d', '\x1e', '\x85', '\u2028', '\u2029', '\n\f\n', '# c\x85d', '\f\n   ', 'f"', 'F"""', "fr'", "RF'''", '"', '"""', "'", "'''", ';', ' some_random_word ', '\\', '#',
          'def ', 'class ', 'if ', 'else', 'elif ', 'for ', 'while ', 'try', 'except', 'finally', 'with ', 'return ', 'lambda ', 'import ',
@@ -161,10 +164,56 @@ def shift_invariance(ctx, n):
             ctx.violation('C04:tokenizer-not-shift-invariant', dict(kind='shift', version=v, code=code[:2000], k=k, first=first, indents=inds))
 
 
+def resume_at_clean_boundaries(ctx, n, drv):
+    """the implementation tokenizer restarted at every clean line boundary the extracted model reports (TokResume.tok_resume_points on the code)"""
+    from parso.python.tokenize import tokenize_lines
+    from parso.utils import split_lines, parse_version_string
+    cases = []
+    for i in range(n):
+        r = gens.rng(ctx.seed, 'c04-resume', i)
+        kind, code = gens.text_case(r.random(), 'c04-resume', i, None)
+        v = r.choice(streams.versions())
+        lines = split_lines(code[:2500], keepends=True)
+        first = r.random() < 0.7
+        sl = r.choice([1, 1, 5])
+        inds = r.choice([[0], [0], [0], [0, 4]])
+        cases.append((v, lines, sl, inds, first, code[:2500]))
+    outs = drv.run([impl.req_resume(v, lines, (sl, 0), inds, first) for v, lines, sl, inds, first, _ in cases])
+
+    def toks(v, lines, sl, inds, first):
+        try:
+            return [(t.type.name, t.string, t.start_pos, t.prefix) for t in
+                    tokenize_lines(list(lines), version_info=parse_version_string(v), indents=list(inds), start_pos=(sl, 0), is_first_token=first)]
+        except Exception as e:
+            return preds.crash_sig(e)
+    for (v, lines, sl, inds, first, code), o in zip(cases, outs):
+        ctx.count('resume-cases')
+        pts = o.split('|') if o else []
+        whole = toks(v, lines, sl, inds, first)
+        if isinstance(whole, str):
+            continue
+        idx = [i for i, p in enumerate(pts) if p != '-' and i + 1 < len(lines)]
+        r = gens.rng(ctx.seed, 'c04-resume-pick', len(code))
+        for i in (idx if len(idx) <= 6 else r.sample(idx, 6)):
+            inds1 = [int(x) for x in pts[i].split(',')] if pts[i] else []
+            head = toks(v, lines[:i + 1], sl, inds, first)
+            rest = toks(v, lines[i + 1:], sl + i + 1, inds1, False)
+            ctx.count('resume-points')
+            ctx.nontrivial(('resume', v, code, i))
+            ok = (not isinstance(head, str) and not isinstance(rest, str) and len(head) >= len(inds1)
+                  and [t[0] for t in head[len(head) - len(inds1):]] == ['DEDENT'] * (len(inds1) - 1) + ['ENDMARKER']
+                  and head[:len(head) - len(inds1)] + rest == whole)
+            if not ok:
+                ctx.violation('C04:tokenizer-not-resumable-at-clean-boundary',
+                              dict(kind='resume', version=v, code=code, start_line=sl, indents=inds, first=first, boundary_after_line_index=i, indents_there=inds1))
+                break
+
+
 def run(ctx, b, drv):
     pend = base.Pending(ctx)
     base.obligations(ctx, b, pend, VFILES)
     shift_invariance(ctx, base.scale(ctx, 400))
+    resume_at_clean_boundaries(ctx, base.scale(ctx, 400), drv)
     base.mismatches(ctx, pend, streams.run_parse(ctx, base.scale(ctx, 800), drv), None)
     n = base.scale(ctx, 600)
     reqs = []
@@ -194,6 +243,8 @@ def run(ctx, b, drv):
 
 def replay(ctx, rp):
     """re-run a recorded edit history against the current /repo"""
+    if rp.get('kind') == 'resume':
+        return 'resume-replay: tokenize_lines of the whole vs of lines[:i+1] and lines[i+1:] restarted with indents_there, see the replay fields'
     if rp.get('kind') == 'shift':
         return 'shift-replay: tokenize_lines(split_lines(code), start_pos=(1,0)) vs start_pos=(1+k,0), see the replay fields'
     if rp.get('kind') != 'history' or not rp.get('steps'):
